@@ -120,29 +120,30 @@ func (t *Task) IsDaemon() bool { return t.daemon }
 
 // Sim is one simulated run.
 type Sim struct {
-	lastGoID uint64
-	Tape     *core.Tape
-	Gen      uint64 // run generation; objects lazily reset themselves when it changes
-	tasks    []*Task
-	cur      *Task
-	Steps    int64
-	MaxSteps int64
-	aborted  bool
-	Viol     *core.Violation
-	Infra    string
-	hash     core.Hash64
-	keep     bool
-	Trace    []string
-	strategy Strategy
-	clock    ClockMode
-	NowNs    int64 // simulated wall clock (can jump backwards: clock skew)
-	MonoNs   int64 // simulated monotonic clock (timers and Sleep; never goes back)
-	Faults   core.Counters
-	Probes   core.Counters
-	finished chan struct{}
-	nextObj  int
-	Salt     uint64
-	Entropy  int
+	heldAcrossYield bool
+	lastGoID        uint64
+	Tape            *core.Tape
+	Gen             uint64 // run generation; objects lazily reset themselves when it changes
+	tasks           []*Task
+	cur             *Task
+	Steps           int64
+	MaxSteps        int64
+	aborted         bool
+	Viol            *core.Violation
+	Infra           string
+	hash            core.Hash64
+	keep            bool
+	Trace           []string
+	strategy        Strategy
+	clock           ClockMode
+	NowNs           int64 // simulated wall clock (can jump backwards: clock skew)
+	MonoNs          int64 // simulated monotonic clock (timers and Sleep; never goes back)
+	Faults          core.Counters
+	Probes          core.Counters
+	finished        chan struct{}
+	nextObj         int
+	Salt            uint64
+	Entropy         int
 
 	// PCT
 	changePoints []int64
@@ -638,6 +639,11 @@ func (s *Sim) Yield(k Kind, obj int) {
 	s.Steps++
 	me.lastRun = s.Steps
 	s.note(me, k, obj)
+	if me.holding > 0 && !s.heldAcrossYield {
+		// a critical section with a preemption point in it: only such a lock can be contended
+		s.heldAcrossYield = true
+		s.Probes.Inc("lock_held_across_yield")
+	}
 	if s.Steps > s.MaxSteps {
 		s.FailInfra(fmt.Sprintf("step budget %d exhausted without a verdict: %s", s.MaxSteps, s.waitGraph()))
 		return
